@@ -678,6 +678,10 @@ def cond_atoms(test, pol):
             out.add((unparse(left) + " is None", not pol))
             if not pol:
                 out.add((unparse(left), False))
+        elif isinstance(op, (ast.Is, ast.IsNot)):
+            a, b = unparse(left), unparse(right)
+            out.add(("%s is %s" % (a, b), pol if isinstance(op, ast.Is) else not pol))
+            out.add(("%s is not %s" % (a, b), (not pol) if isinstance(op, ast.Is) else pol))
         elif isinstance(op, (ast.In, ast.NotIn)):
             a, b = unparse(left), unparse(right)
             out.add(("%s in %s" % (a, b), pol if isinstance(op, ast.In) else not pol))
